@@ -281,6 +281,8 @@ func init() {
 		for _, m := range []string{"aes-256-gcm", "aes-128-gcm", "chacha20-poly1305", "plain"} {
 			jobs = append(jobs, vx.Job{Scenario: "mux.garbagerecord", Params: vx.P("method", m), Bound: 0, BudgetS: 100, Weight: 2})
 		}
+		jobs = append(jobs, vx.Job{Scenario: "mux.garbagerecord", Params: vx.P("method", "aes-256-gcm", "conns", "2", "pool", "recycle", "delay", "0"), Bound: 1, BudgetS: 100, Weight: 5},
+			vx.Job{Scenario: "mux.garbagerecord", Params: vx.P("method", "chacha20-poly1305", "conns", "2", "delay", "0"), Bound: 1, BudgetS: 100, Weight: 5})
 		return jobs
 	})
 }
